@@ -102,7 +102,8 @@ class Sched:
         inj["seen"] = inj.get("seen", 0) + 1
         if inj["seen"] == inj["at"]:
             inj["fired"] = label
-            self.abort_snapshot = {t.name: t.done for t in self.tasks}
+            if inj.get("on_fire"):
+                inj["on_fire"]()
             raise inj["exc"]
 
     def block_until(self, pred, label):
